@@ -101,7 +101,9 @@ impl CgCtx {
     }
 
     pub fn add_search_table(&mut self, ranges: Vec<(char, char)>) -> syn::Ident {
-        self.codegen_state.search_tables.add_table(ranges)
+        self.codegen_state
+            .search_tables
+            .add_table(&self.lexer_name, ranges)
     }
 
     pub fn take_search_tables(&mut self) -> SearchTableSet {
